@@ -26,27 +26,30 @@ SPEC = {
         "rebuilds use the real rebuild_expired_transfer on real commits and a row-level emulation on synthetic states",
     ],
     "tiers": {
-        "quick": {"shards": 16, "budget_s": 60, "extra": {"traces": 150, "arb": 100, "real-commits": 2}},
+        "quick": {"shards": 16, "budget_s": 75, "extra": {"traces": 110, "arb": 100, "real-commits": 2}},
         "thorough": {"shards": 16, "budget_s": 1100, "extra": {"traces": 9000, "arb": 3000, "real-commits": 5}},
     },
     "floors": {
         "quick": {
-            "evaluations": 40000, "distinct_nontrivial": 15000, "traces": 1800, "traces_real": 250,
-            "advance_calls": 25000, "broadcast_offers_checked": 3000, "broadcast_offered_exactly_when_due": 2000,
-            "broadcast_offered_at_last_valid_height": 80, "priority_checks_with_proved_rows": 8000,
-            "withheld_doomed_window": 1000, "withheld_open_failure_report": 80, "withheld_partially_mined_dependencies": 10,
-            "withheld_not_yet_satisfiable": 8, "stuck_checks_all_unmined_dead": 1500, "all_dead_step_replan": 800,
-            "rollbacks_applied": 2000, "rollback_unmined_transactions": 1000, "rollback_kept_mined_transactions": 4000,
-            "rollback_mined_exactly_at_height_kept": 200, "complete_reverted_by_rollback": 40,
-            "events_on_policy_terminal_migration": 4000, "event_mark_cancelled": 80, "event_mark_superseded": 500,
-            "reached_complete": 150, "persist_roundtrips_memory": 40000, "persist_roundtrips_sqlite": 25000,
-            "persist_terminal_history_reads": 4000, "wallet_driven_truncations": 400, "update_transaction_checks": 700,
-            "guard_probes_over_live_migration": 3000, "guard_probes_over_terminal_migration": 1200,
-            "guard_probe_status_in_progress": 2000, "second_pending_row_refused_by_database": 120,
-            "failure_reports_adjudicated": 500, "sweep_promoted_unrecorded_broadcast": 250, "overdue_shifts": 2500,
-            "marks_recorded": 900, "store_answers_adversarial": 600, "real_rebuilds": 150, "emulated_rebuilds": 900,
-            "crash_restarts_from_sqlite": 200, "arbitrary_state_roundtrips": 1500, "repeat_calls_while_broadcast_outstanding": 1400,
-            "other_account_migration_intact": 1800,
+            "evaluations": 20700, "distinct_nontrivial": 9900, "traces": 1000, "traces_real": 130,
+            "advance_calls": 13400, "broadcast_offers_checked": 1600, "broadcast_offered_exactly_when_due": 1200,
+            "broadcast_offered_at_last_valid_height": 50, "priority_checks_with_proved_rows": 4400,
+            "withheld_doomed_window": 560, "withheld_open_failure_report": 60,
+            "withheld_partially_mined_dependencies": 8, "withheld_not_yet_satisfiable": 5,
+            "stuck_checks_all_unmined_dead": 840, "all_dead_step_replan": 430, "rollbacks_applied": 970,
+            "rollback_unmined_transactions": 530, "rollback_kept_mined_transactions": 1800,
+            "rollback_mined_exactly_at_height_kept": 100, "complete_reverted_by_rollback": 10,
+            "events_on_policy_terminal_migration": 3000, "event_mark_cancelled": 540, "event_mark_superseded": 700,
+            "reached_complete": 77, "persist_roundtrips_memory": 21000, "persist_roundtrips_sqlite": 14300,
+            "persist_terminal_history_reads": 2800, "wallet_driven_truncations": 250,
+            "update_transaction_checks": 400, "guard_probes_over_live_migration": 1700,
+            "guard_probes_over_terminal_migration": 670, "guard_probe_status_in_progress": 1300,
+            "second_pending_row_refused_by_database": 77, "failure_reports_adjudicated": 290,
+            "sweep_promoted_unrecorded_broadcast": 170, "overdue_shifts": 1600, "marks_recorded": 540,
+            "store_answers_adversarial": 370, "real_rebuilds": 130, "emulated_rebuilds": 540,
+            "crash_restarts_from_sqlite": 140, "arbitrary_state_roundtrips": 550,
+            "repeat_calls_while_broadcast_outstanding": 840, "other_account_migration_intact": 1000,
+            "write_faults_injected_mid_transaction": 40,
         },
         "thorough": {
             "evaluations": 2000000, "distinct_nontrivial": 100000, "traces": 100000, "traces_real": 15000,
